@@ -38,6 +38,9 @@ def run(rep):
     rep.guard(c08.x3, rep, w)   # a finishing fiber drops its own handlers, not those of the fiber it returns to
     rep.guard(c08.x20, rep, w, 'C09')   # what a fiber hands to its caller is not kept in the slot a return is parked in: the next finally block of that fiber would resume it as a return
     rep.guard(c01.r2, rep, w)     # a suspended fiber stays reachable from the fiber that resumed it / from the VM: every handle the VM keeps is a root
+    import c15
+    rep.guard(c15.n1, rep, w)     # what the VM counts about fibers in one run (a nesting depth) does not carry into the next: a run that died inside nested fibers must not make later runs refuse legal calls
+    rep.guard(c15.n8, rep, w, 'C09')   # ... and a depth raised on entry and lowered on exit comes down when the fibers are left by an exception
 
 
 def value_key(paths):
